@@ -2,7 +2,7 @@
 import numpy as np
 
 from sim.core import Violation, Inconclusive, RandomProxy, patched_random, close6
-from sim.models import gen_mdp_spec, MDPView, make_mdp
+from sim.models import gen_mdp_spec, MDPView, make_mdp, sibling_mdp_spec
 from sim.refsolve import optimal_values, evaluate
 from sim.heur import gen_heuristic, build_heuristic
 from sim.ctx import RunCtx, make_scheduler, gen_sched
@@ -38,7 +38,8 @@ def gen_case(rng, tier, idx):
         spec = gen_mdp_spec(rng, proper=rng.random() < 0.5, discounts=(0.5, 0.8, 0.9, 0.95, 0.99), rewards=big)
     h = gen_heuristic(rng)
     h['at_abs'] = abs(h['at_abs'])       # C03's heuristics never under-estimate, absorbing states (worth 0) included
-    cfg = dict(heur=h, rao=rng.random() < 0.7, rno=rng.random() < 0.7, seed=rng.choice((0, 1, 2, 77)))
+    cfg = dict(heur=h, rao=rng.random() < 0.7, rno=rng.random() < 0.7, seed=rng.choice((0, 1, 2, 77)),
+               reuse=rng.randrange(1000) if rng.random() < 0.15 else None)
     plain = idx % 4 == 0
     sched = gen_sched(rng, ('P',) if plain else ('P', 'X', 'X'), budget_choices=(None,), coop=False, cap=200000)
     return dict(spec=spec, cfg=cfg, sched=sched)
@@ -49,7 +50,7 @@ def execute(case, script=None):
     view = MDPView(case['spec'])
     ctx = RunCtx(PROP, view)
     ctx.declare_probes('listener_events', 'absorbing_initial_state', 'multi_initial',
-                       'undiscounted', 'tie_between_actions', 'nonzero_heuristic_at_absorbing')
+                       'undiscounted', 'tie_between_actions', 'nonzero_heuristic_at_absorbing', 'planner_reused')
     sched = make_scheduler(case, script, ctx)
     try:
         return _execute(lao, view, case['cfg'], ctx, sched)
@@ -76,13 +77,15 @@ def _execute(lao, view, cfg, ctx, sched):
             if len(q) > 1 and abs(q[-1] - q[-2]) < 1e-12:
                 ctx.probe('tie_between_actions')
     v0 = sum(p * Vs[s] for s, p in view.init.items())
-    state = dict(n_expanded=-1, it=0)
+    state = dict(n_expanded=-1, it=0, main=True)
 
     def lb(s):
         return Vs[s] - TOL * (1 + abs(Vs[s]))
 
     class L(lao.LAOStarEventListener):
         def main_lao_star_loop(self, lv):
+            if not state['main']:
+                return
             ctx.probe('listener_events')
             state['it'] += 1
             try:
@@ -102,9 +105,17 @@ def _execute(lao, view, cfg, ctx, sched):
     proxy = RandomProxy(sched)
     with patched_random([lao], proxy):
         try:
-            r = lao.LAOStar(heuristic=lambda s: htab[sid[s]], seed=cfg['seed'], randomize_action_order=cfg['rao'],
-                            randomize_nextstate_order=cfg['rno'], max_lao_star_iterations=10000,
-                            event_listener_class=L).plan_on(mdp)
+            planner = lao.LAOStar(heuristic=lambda s: htab[sid[s]], seed=cfg['seed'], randomize_action_order=cfg['rao'],
+                                  randomize_nextstate_order=cfg['rno'], max_lao_star_iterations=10000, event_listener_class=L)
+            sib = sibling_mdp_spec(view.spec, cfg['reuse']) if cfg.get('reuse') is not None else None
+            if sib is not None:
+                # fault F5: the same planner object is first used on a sibling problem (same keys, one more absorbing state)
+                sched.fire('F5_object_reuse')
+                ctx.probe('planner_reused')
+                state['main'] = False
+                planner.plan_on(make_mdp(MDPView(sib), ctx))
+                state['main'] = True
+            r = planner.plan_on(mdp)
         except (Violation, Inconclusive):
             raise
         except Exception as e:
